@@ -155,13 +155,25 @@ func genC06(env *core.Env, emit func(core.Case)) {
 		armed, readInspect, writeInspect := false, accepted, accepted
 		dead := false
 		outcome := ""
-		for _, e := range hist {
+		var preRead *connh.IORes // result of a Read that was pending while the previous backend record was written
+		pendingMode := r.IntN(2) == 0
+		for hi, e := range hist {
 			if dead {
 				break
 			}
 			if slices.Contains(backendEv, e) {
 				rec := backendRec[e]
-				wr := s.Write(rec)
+				var wr connh.IORes
+				if pendingMode && hi+1 < len(hist) && !slices.Contains(backendEv, hist[hi+1]) {
+					// the relay's other goroutine is already blocked in Read when this record is written
+					nrec, _ := recOf(hist[hi+1])
+					var rd connh.IORes
+					wr, rd = s.WriteWhileReadPending(70000, rec, [][]byte{nrec}, "eof")
+					preRead = &rd
+					env.Count("read-pending-during-backend-write/" + e)
+				} else {
+					wr = s.Write(rec)
+				}
 				if w == "" && (wr.Err != "-" || !bytes.Equal(wr.Out, rec)) {
 					w = fmt.Sprintf("backend record %s not forwarded unchanged (err=%s)", e, wr.Err)
 				}
@@ -178,8 +190,14 @@ func genC06(env *core.Env, emit func(core.Case)) {
 				continue
 			}
 			rec, rctx := recOf(e)
-			s.Feed([][]byte{rec}, "eof")
-			rd := s.Read(70000)
+			var rd connh.IORes
+			if preRead != nil {
+				rd = *preRead
+				preRead = nil
+			} else {
+				s.Feed([][]byte{rec}, "eof")
+				rd = s.Read(70000)
+			}
 			isHello2 := rctx != nil
 			switch {
 			case readInspect && isHello2 && armed:
